@@ -1,6 +1,6 @@
 """C28  hy.repr has no leaking state.
 
-Space (E2): every history of <= k hy.repr calls over 18 operands (model atoms,
+Space (E2): every history of <= k hy.repr calls over 19 operands (model atoms,
 nested models, containers holding models, self-referential list / dict,
 instances of registered classes whose printers call hy.repr re-entrantly on
 models, on containers, on their own container, and catch failures of nested
@@ -71,7 +71,7 @@ def bounds(tier):
             "fault_sets": "every set of <= max_faults_per_call fault points of a call all of which fire"}
 
 
-N_OPS_HINT = 60     # shards() must not import hy; the number of first operations is fixed by the operand table
+N_OPS_HINT = 61     # shards() must not import hy; the number of first operations is fixed by the operand table
 
 
 def shards(tier):
